@@ -10,21 +10,22 @@ from ..conds import facts_at, truth
 
 FORBIDDEN = {"ALLOC", "FREE", "LOCK", "WAIT", "ALLOCFREE_UNKNOWN", "SYSCALL", "UNCLASSIFIED"}
 ALLOWED = {"INTRINSIC", "SAFE_FFI", "TERM", "SAFE", "WS_C", "UBCHECK", "PANIC", "SAFE_FFI_BLOCK"}
-REFUSED_ITERS = ("std::iter::Repeat", "std::iter::Cycle", "std::ops::RangeFrom", "std::iter::FromFn",
-                 "std::iter::Successors", "std::iter::RepeatWith")
+REFUSED_ITERS = ("core::iter::sources::repeat::Repeat", "core::iter::adapters::cycle::Cycle", "core::ops::range::RangeFrom",
+                 "core::iter::sources::from_fn::FromFn", "core::iter::sources::successors::Successors",
+                 "core::iter::sources::repeat_with::RepeatWith", "core::range::RangeFrom")
 MSG_DONTWAIT = 0x40
 
 
 def _io_error_refinement(ctx, F, cone, rid):
     """FREE may be reachable only below drop_in_place::<io::Error> (the Custom variant) and then only if no
     allocating io::Error constructor is reachable in the cone."""
-    ioerr = [i for i in cone.members if i.kind == "drop_glue" and i.drop_ty == "std::io::Error"]
-    cut = Cone(F, cone.roots, stop=lambda i: i.kind == "drop_glue" and i.drop_ty == "std::io::Error")
+    ioerr = [i for i in cone.members if i.kind == "drop_glue" and i.drop_ty == "std::io::error::Error"]
+    cut = Cone(F, cone.roots, stop=lambda i: i.kind == "drop_glue" and i.drop_ty == "std::io::error::Error")
     free = cut.of_class("FREE")
     bad_ctor = [i for i in cone.members
-                if re.match(r"^std::io::Error::(new|other|_new)\b", strip_generics(i.name))
-                or re.match(r"^<std::io::Error as std::convert::From<(?!std::io::ErrorKind>|std::io::Error>).*>>::from", i.name)
-                or "std::boxed::Box<dyn std::error::Error" in i.name and "std::io::Error" in i.name]
+                if re.match(r"^std::io::error::Error::(new|other|_new)\b", strip_generics(i.name))
+                or re.match(r"^<std::io::error::Error as core::convert::From<(?!std::io::error::ErrorKind>|std::io::error::Error>).*>>::from", i.name)
+                or ("alloc::boxed::Box<dyn core::error::Error" in i.name and "std::io::error::Error" in i.name)]
     return ioerr, free, bad_ctor, cut
 
 
@@ -119,7 +120,7 @@ def _loop_kind(F, m, comp):
         if t["k"] != "call" or t.get("f") is None:
             continue
         d = norm(t.get("def") or "")
-        if d == "std::iter::Iterator::next":
+        if d == "std::iter::traits::iterator::Iterator::next":
             selfty = (t.get("targs") or [""])[0]
             if not any(selfty.startswith(r) for r in REFUSED_ITERS):
                 iter_blocks.append(b)
@@ -265,7 +266,7 @@ def _discharge_global_init(ctx, F):
                 callee = F.inst[t2["f"]]
                 # an initialiser: reaches Once::call_once* (transitively, within 2 workspace frames)
                 par = F.reach([callee], stop=lambda x: not x.local and "Once::call_once" not in x.name)
-                if any("std::sync::Once::call_once" in F.inst[x].name for x in par):
+                if any("std::sync::once::Once::call_once" in F.inst[x].name for x in par):
                     init_blocks.append(b2)
             if not any(ib in dom[bb] and ib != bb for ib in init_blocks):
                 return False, "%s installs the dispatcher (via %s) without a dominating Once initialisation" % (ci.name, ins.name)
